@@ -951,7 +951,21 @@ func compareEnumDefinitions(newEnum, oldEnum *EnumDefinition, context *Evolution
 	return nil
 }
 
+// A scalar GeneralizedType with a single case is just another spelling of that case
+// (e.g. the items of `!vector {items: "int?"}` versus `!vector {items: [null, int]}`).
+func unwrapSingleCase(t Type) Type {
+	for {
+		gt, ok := t.(*GeneralizedType)
+		if !ok || gt.Dimensionality != nil || !gt.Cases.IsSingle() || gt.Cases[0].Type == nil {
+			return t
+		}
+		t = gt.Cases[0].Type
+	}
+}
+
 func compareTypes(newType, oldType Type, context *EvolutionContext) TypeChange {
+	newType = unwrapSingleCase(newType)
+	oldType = unwrapSingleCase(oldType)
 	switch newType := newType.(type) {
 	case *SimpleType:
 		switch oldType := oldType.(type) {
